@@ -7,9 +7,11 @@
    - the tree before repair F24 (a body that exits its goroutine is committed);
    - seeded change C14-4 (a context that became done while Begin was in flight is treated like
      a failed Begin: return before the deferred function is registered);
-   - seeded change C14-5 (no Rollback when the body's error matches driver.ErrBadConn). *)
+   - seeded change C14-5 (no Rollback when the body's error matches driver.ErrBadConn);
+   - seeded change C14-9 (a TransactCtx nested in another one on the same SqlConn joins the enclosing
+     transaction instead of being one). *)
 From Coq Require Import List ZArith Bool.
-From GZ Require Import C14.Model.
+From GZ Require Import C14.Model C14.Check.
 Import ListNotations.
 Open Scope Z_scope.
 
@@ -128,6 +130,42 @@ Proof.
   eexists. eexists. vm_compute. repeat split; auto. discriminate.
 Qed.
 
+(* ---- C14-9: a TransactCtx whose context comes from the body of another TransactCtx on the same
+   SqlConn "runs in the transaction that is already open": return fn(ctx, outer.session) ---------- *)
+(* [joins t]: call t is such a nested call *)
+Definition ret_joined (o : bout) : ret :=
+  match o with
+  | BNil => RetErr ENil
+  | BErr b => RetErr (EBody b)
+  | BPanic => RetPanic
+  | BGoexit => RetNever
+  end.
+
+Definition tstep_join_outer (joins : nat -> bool) (g : bool) (t : nat) (sc : script) (st : tstate)
+  (orc : list reply) : qout :=
+  if joins t then
+    match st with
+    | TIdle => (TBody 0 (ssteps sc) false false, [], orc, false)   (* no Begin *)
+    | _ => tstep_fin (fun _ _ done o orc' => (TDone (mkRes 1 (Some o) (ret_joined o) done), [], orc', false))
+                     t sc st orc                                     (* no Commit, no Rollback *)
+    end
+  else tstep g t sc st orc.
+
+(* the outer body runs the nested call (transaction 1, quanta between two of its own) and then fails:
+   the nested call has returned nil although nothing of its own was ever begun or committed — and
+   its statement, made on the outer connection, is rolled back with the outer transaction *)
+Theorem nested_call_joins_outer_refuted :
+  exists scs sched orc th r,
+    let W := exec_gen (tstep_join_outer (Nat.eqb 1) true) scs sched orc in
+    nth_error (wthreads W) 1 = Some th /\ tst th = TDone r /\ let_through (tsc th) = true /\
+    rruns r = 1 /\ rret r = RetErr ENil /\
+    count ent_begin (proj 1 (wlog W)) = 0%nat /\ count ent_end (proj 1 (wlog W)) = 0%nat /\
+    wlog W = [en 0 1 CBegin OOk; en 1 1 (CStmt 0 KExec) OOk; en 0 1 CRollback OOk].
+Proof.
+  exists [sc1 [mkStep ANop FStop] (RErr vgen); sc1 [stx] RNil], [0; 0; 1; 1; 1; 0]%nat, [].
+  eexists. eexists. vm_compute. repeat split; auto.
+Qed.
+
 (* the same runs on the code as it is *)
 Example commit_error_kept :
   map tst (wthreads (exec true [sc1 [stx] RNil] [0; 0; 0]%nat [ok; ok; fl])) =
@@ -145,6 +183,11 @@ Example badconn_statement_is_rolled_back :
   wlog (exec true [sc1 [stx; stx] RNil] [0; 0; 0]%nat [ok; ok; bad]) =
   [mkEnt 0 1 CBegin OOk vgen; mkEnt 0 1 (CStmt 0 KExec) OOk vgen;
    mkEnt 0 1 (CStmt 1 KExec) OFail (mkVal VBadConn MWrap); mkEnt 0 1 CRollback OOk vgen].
+Proof. vm_compute. reflexivity. Qed.
+Example nested_call_is_bracketed :
+  wlog (exec true [sc1 [mkStep ANop FStop] (RErr vgen); mkScript true false true true 2 [] [stx] RNil 0]
+             [0; 0; 1; 1; 1; 0]%nat []) =
+  [en 0 1 CBegin OOk; en 1 2 CBegin OOk; en 1 2 (CStmt 0 KExec) OOk; en 1 2 CCommit OOk; en 0 1 CRollback OOk].
 Proof. vm_compute. reflexivity. Qed.
 Example cancelled_during_begin_is_ended :
   wlog (exec true [sc1 [stx] RNil] [0; 0; 0]%nat [mkReply OOk true vgen]) =
